@@ -158,6 +158,28 @@ def run(ctx: Ctx):
         ctx.extract("PowerProg", x_prog.emit)
         ctx.extract("RequestSchema", x_schema.emit)
         ctx.prove(MODULES, exes=[EXE], clean=False, leanchecker=ctx.thorough)
+        # counter-model search for the translated power methods: turns a broken `C12_gen_*_sem` proof into a readable node
+        # (it proves nothing; when the theorems check it must find nothing)
+        try:
+            import subprocess
+            from harness.lib.core import LEAN, lake_build
+            okb, outb = lake_build(["drv_c12prog"])
+            if okb:
+                res = subprocess.run([str(LEAN / ".lake" / "build" / "bin" / "drv_c12prog")], stdout=subprocess.PIPE, text=True, timeout=600)
+                found = [l for l in res.stdout.splitlines() if " counter-model " in l]
+                tried = [l for l in res.stdout.splitlines() if " ok " in l]
+                ctx.oblige("model:translated power methods agree with the model on every small node (counter-model search)",
+                           "correspondence", not found and len(tried) == 6, " || ".join(found)[:3000] or res.stdout[:500])
+                for l in found:
+                    ctx.notes.append("counter-model of a translated power method: " + l[:1200])
+                if tried:
+                    ctx.notes.append("counter-model search: " + "; ".join(tried))
+            else:
+                ctx.oblige("model:translated power methods agree with the model on every small node (counter-model search)",
+                           "correspondence", False, "drv_c12prog does not build: " + outb[-600:])
+        except Exception as e:
+            ctx.oblige("model:translated power methods agree with the model on every small node (counter-model search)",
+                       "correspondence", False, f"{type(e).__name__}: {e}")
     ctx.cov["rule"] = ("case = (node classes, start-up/shut-down durations, op sequence over shutdown/startup/reset requests, ticks, "
                        "pings, other node-level requests, frame injections); every answer, every operating_state assignment and "
                        "the whole modelled state after every op are compared; a case is non-trivial when some node leaves ON or "
@@ -240,6 +262,10 @@ def run(ctx: Ctx):
     for k in range(ctx.scale(100, 1000)):
         cases.append((f"sess:{k}", rig.gen_sessions(rng)))
 
+    only = [x for x in os.environ.get("C12_FAMILIES", "").split(",") if x]
+    if only:   # development aid (mutation self-checks): run the named families only; recorded in the evidence
+        cases = [(nm, c) for nm, c in cases if nm.split(":")[0] in only]
+        ctx.notes.append(f"C12_FAMILIES={','.join(only)}: only these case families were run (development setting, not the check as shipped)")
     workers = int(os.environ.get("C12_WORKERS", "0")) or max(1, min(14, (os.cpu_count() or 2) - 2))
     t1 = time.time()
     results = _run_impl_all([c for _, c in cases], workers)
